@@ -3,7 +3,7 @@ import ast
 
 from . import scopes
 from ..core.report import DOMAIN_D
-from ..rules import roles, loops, eager, degree, frame, mirror, safediv, runmin, onsegment, sides, unpack, purity, ericson, misc2, siblings
+from ..rules import roles, loops, eager, degree, frame, mirror, safediv, runmin, onsegment, sides, unpack, purity, ericson, misc2, siblings, affine
 from ..engines.signs import Signs, NONNEG, ZERO
 from .common import e1, e2
 
@@ -13,7 +13,7 @@ DIST = "distance3d.distance"
 def run(idx, rep, tier):
     rep.set_scope(scopes.scope(idx, "C10"))
     rep.explanation = (
-        "R-API: distance3d.distance.__all__ names 34 functions, each bound to a definition. R-NONNEG (sign lattice, engine "
+        "R-AFFINE: every returned vector is an affine combination of positions (position weight 1) or a direction (0), inferred through +, -, constant factors and per call site through private helpers. R-API: distance3d.distance.__all__ names 34 functions, each bound to a definition. R-NONNEG (sign lattice, engine "
         "signs): the returned distance of every public function is >= 0 by construction (norm / sqrt / abs / 0.0 / a callee's "
         "distance), evaluated with the default flags. R-TRIPLE / R-ROLE / R-ROLEAGREE (role flow): composite functions take "
         "distance and points from ONE sub-query and return the points in the order of the primitives, mapping callee results "
@@ -54,6 +54,7 @@ def run(idx, rep, tier):
     mirror.r_tournament(idx, rep)
     mirror.r_boxface(idx, rep)
     safediv.r_selected_component(idx, rep)
+    affine.r_affine(idx, rep, [m.name for m in idx.lib_modules() if m.name.startswith('distance3d.distance')], floor=40)      # closest points are points: position weight 1 through every private helper
     safediv.r_sqrtdomain(idx, rep, modules=["distance3d.distance"], floor=8, unknown_ceiling=8)
     mods = [x.name for x in idx.lib_modules() if x.name.startswith("distance3d.distance")]
     loops.r_loop(idx, rep, mods, rule="R-HANG", floor=12, allowed=("CAP", "STRUCT"))
